@@ -28,7 +28,7 @@ def plan(ctx):
     # the public wrapper + adapter on the smallest table (return-code propagation, argument forwarding)
     obs.append(fn_ob(XOR, 3, 3, 3, 1, 2, l1=False, timeout=1800, mem=12))
     obs.append(fn_ob(XOR, 3, 3, 3, 3, 3, beyond=True, l1=False, timeout=1800, mem=12))
-    rs = [(RS, 2, 1), (RS, 3, 2), (RS, 4, 2), (RS, 5, 3), (ISAV, 4, 2), (ISAC, 3, 3), (ISAV, 10, 4)] + ([(RS, 6, 3), (RS, 8, 4), (RS, 10, 2), (ISAV, 8, 4), (ISAC, 8, 4), (ISAV, 28, 4), (ISAV, 16, 16)] if thorough else [])
+    rs = [(RS, 2, 1), (RS, 3, 2), (RS, 4, 2), (RS, 5, 3), (ISAV, 4, 2), (ISAC, 3, 3), (ISAV, 10, 4)] + ([(RS, 6, 3), (RS, 8, 4), (RS, 10, 2), (ISAV, 8, 4), (ISAC, 8, 4), (ISAV, 28, 4), (ISAV, 12, 4)] if thorough else [])
     for be, k, m in rs:
         obs.append(fn_ob(be, k, m, m, 1, m))
         obs.append(fn_ob(be, k, m, m, m + 1, min(k + m, m + 2), beyond=True))
